@@ -1640,11 +1640,15 @@ def classify_wa(rec, req, cls, cw, ca, diffs):
         # (7) an exception handled at the render stage (after process_response) while resp.stream is still set:
         #     falcon/app.py answers with an empty body (Content-Length: 0), falcon/asgi/app.py falls through to
         #     `stream = resp.stream` and sends the stream's content under the error status
-        tr = [t for t in (cw.get('trace') or []) if t and t[0] == 'resp']
-        late_error = bool(tr) and tr[-1][3] != cw['resp'][0] and cw['resp'][0] == ca['resp'][0]
+        #     Evidence on the WSGI side that its render step failed and was handled: although a stream is set (and the
+        #     script never sets Content-Length: 0) it answers an error status with an empty body and `Content-Length: 0` -
+        #     falcon/app.py only does that through `body = []; length = 0` before _get_body() raised.  (The status seen by the
+        #     last process_response hook is no evidence: a hook may change it afterwards, and the render error may restore it.)
+        #     For HEAD both bodies are empty and the ASGI leg merely lacks the Content-Length.  The undo experiment decides.
+        w_failed_render = cw['resp'][0] >= 400 and cw['resp'][0] == ca['resp'][0]
         w_empty = cw['resp'][2] == b'' and ['content-length', '0'] in cw['resp'][1]
         a_streamed = ['content-length', '0'] not in ca['resp'][1]     # the stream branch never writes Content-Length: 0
-        if late_error and w_empty and a_streamed:
+        if w_failed_render and w_empty and a_streamed:
             alt = json.loads(json.dumps(req))
             alt['script']['body'] = ['none']
             if not compare_caps(leg_w(alt), leg_a(alt), resp_only=True):
